@@ -1,2 +1,148 @@
-(* C16 - placeholder while the facts are being written *)
-From Delb.XPath Require Import ParseEnc.
+(* C16 - any string is either a parsed XPath expression or an XPathParsingError.
+   Statements only; every proof is `exact` of a lemma of XPath/TokFacts.v, ParseFacts.v, ParseSweep.v.
+
+   Model: XPath/Tok.v (tokenizer), Parse.v (group_enclosed_expressions, expand_axes, partition_tokens,
+   parse_location_path / _step, parse_evaluation_expression, Axis / Function constructors, parse,
+   XPathParsingError.__str__, lru_cache), over tables regenerated from the source on every run
+   (Gen/GenXPath.v).  `parse s : outcome` is what a caller of _delb.xpath.parse(s) observes:
+   OOk ast | ORej position message unsupported? | OCrash site | OFuel.
+
+   The full statement (C16_total_statement below) is FALSE of the faithful model on the unchanged
+   tree: C16_total_refuted lists inputs that leave through a crash site (IndexError, KeyError,
+   AssertionError).  What is true, for every string, without bound:
+     - the tokenizer is total and its lexemes concatenate back to the input          C16_tokens_concat, C16_tokenizer_total
+     - every phase terminates within fuel = length + 1 (OFuel is excluded by proof)   C16_no_other_outcome
+     - parse s is OOk, ORej, or OCrash at one of the audited crash sites (never at a
+       subscript / assert that follows a pattern match)                              C16_no_other_outcome
+     - a rejection carries a position inside the expression and renders               C16_position_in_range, C16_renders
+     - the partial operations of the source are exactly those the model accounts for  C16_audit, C16_alternation
+     - parsing is a function of the string (definitional) and the two lru_caches are
+       transparent for every history of earlier calls                                C16_cache, C16_cache_bounded
+     - outside the crash sites the full statement holds                               C16_total_partial *)
+From Coq Require Import List NArith Bool.
+From Delb.Base Require Import PyStr.
+From Delb.XPath Require Import XBase Tok TokFacts Ast Parse ParseFacts Classify ParseSweep.
+From Delb.Gen Require Import GenXPath.
+Import ListNotations.
+
+(* ---- the tie to the source ---- *)
+Theorem C16_alternation : tok_alternatives = expected_alternatives.
+Proof. exact alternatives_as_modelled. Qed.
+Print Assumptions C16_alternation.
+
+Theorem C16_audit : audit = model_audit.
+Proof. exact audit_ok. Qed.
+Print Assumptions C16_audit.
+
+(* ---- tokenizer ---- *)
+Theorem C16_tokens_concat : forall s l, lexemes s = POk l -> concat (map t_str l) = s.
+Proof. exact lexemes_concat. Qed.
+Print Assumptions C16_tokens_concat.
+
+Theorem C16_tokenizer_total : forall s,
+  (exists l, lexemes s = POk l) \/ (exists e p, lexemes s = PRej e /\ x_pos e = Some p /\ p < length s).
+Proof. exact lexemes_total. Qed.
+Print Assumptions C16_tokenizer_total.
+
+Theorem C16_tokens_are_lexemes : forall s l,
+  tokenize s = POk l -> exists ls, lexemes s = POk ls /\ l = filter not_whitespace ls.
+Proof. exact tokenize_lexemes. Qed.
+Print Assumptions C16_tokens_are_lexemes.
+
+(* ---- the full statement and its refutation ---- *)
+Definition renders (s : str) (p : nat) (m : str) : Prop :=
+  exists text, xpe_str (Some s) (Some p) (Some m) = Some text.
+
+Definition C16_total_statement : Prop :=
+  forall s, (exists e, parse s = OOk e)
+            \/ (exists p m u, parse s = ORej p m u /\ p <= length s /\ renders s p m).
+
+Theorem C16_total_refuted :
+  parse [97; 47]%N = OCrash S_step_all_tokens_last   (* a/ *) /\
+  parse [47]%N = OCrash S_step_all_tokens_last   (* / *) /\
+  parse [47; 47]%N = OCrash S_step_all_tokens_last   (* // *) /\
+  parse [115; 101; 108; 102; 58; 58; 110; 111; 100; 101; 40; 41; 91; 49; 93; 47]%N = OCrash S_step_all_tokens_last   (* self::node()[1]/ *) /\
+  parse [108; 97; 115; 116; 40; 41]%N = OCrash S_step_node_type   (* last() *) /\
+  parse [97; 93]%N = OCrash S_group_pop   (* a] *) /\
+  parse [97; 91; 49; 32; 111; 114; 93]%N = OCrash S_expr_operand   (* a[1 or] *) /\
+  parse [97; 91; 61; 93]%N = OCrash S_expr_operand   (* a[=] *) /\
+  parse [102; 111; 111; 40; 49; 41]%N = OCrash S_step_pi_name   (* foo(1) *) /\
+  parse [99; 111; 109; 109; 101; 110; 116; 40; 49; 41]%N = OCrash S_step_pi_name   (* comment(1) *) /\
+  parse [97; 91; 102; 40; 44; 41; 93]%N = OCrash S_expr_empty   (* a[f(,)] *).
+Proof. exact total_refuted. Qed.
+Print Assumptions C16_total_refuted.
+
+Theorem C16_total_false : ~ C16_total_statement.
+Proof. exact total_false. Qed.
+Print Assumptions C16_total_false.
+
+(* ---- what holds for every string ---- *)
+(* OFuel never; a crash only at a site that is not guarded by a pattern match.  unguarded c says
+   c is neither S_guarded_index nor S_guarded_assert, so c is one of the 20 audited sites of XBase.site,
+   whose exception classes are IndexError, KeyError, AssertionError, ValueError, NotImplementedError. *)
+Theorem C16_no_other_outcome : forall s,
+  (exists e, parse s = OOk e) \/ (exists p m u, parse s = ORej p m u) \/ (exists c, parse s = OCrash c /\ unguarded c).
+Proof. exact no_other_outcome. Qed.
+Print Assumptions C16_no_other_outcome.
+
+Theorem C16_position_in_range : forall s p m u, parse s = ORej p m u -> p <= length s.
+Proof. exact position_in_range. Qed.
+Print Assumptions C16_position_in_range.
+
+Theorem C16_renders : forall s p m u, parse s = ORej p m u -> renders s p m.
+Proof. exact rejection_renders. Qed.
+Print Assumptions C16_renders.
+
+(* ---- cache half: lru_cache(64) on tokenize and on parse, exceptions not cached ---- *)
+Theorem C16_cache : forall history s, snd (parse_cached (run history) s) = parse s.
+Proof. exact parse_cache_transparent. Qed.
+Print Assumptions C16_cache.
+
+Theorem C16_cache_bounded : forall cs s,
+  length (parse_cache cs) <= parse_cache_size -> length (parse_cache (fst (parse_cached cs s))) <= parse_cache_size.
+Proof. exact parse_cache_bounded. Qed.
+Print Assumptions C16_cache_bounded.
+
+(* ---- the full statement under the decidable guard "the model does not leave through a crash site" ----
+   crash_free s is computed by running the model.  The finding classes of Classify.v are decidable on
+   the token list alone; that every crash lies in the class of its site (so that `unclassified s = true`
+   could replace `crash_free s = true`) is proved for all strings up to the bounds of
+   C16_sites_in_classes_bounded and compared on every case of every check run, not proved in general:
+       forall s, site_in_class s = true                                      (open) *)
+Theorem C16_total_partial : forall s, crash_free s = true ->
+  (exists e, parse s = OOk e) \/ (exists p m u, parse s = ORej p m u /\ p <= length s /\ renders s p m).
+Proof. exact total_partial. Qed.
+Print Assumptions C16_total_partial.
+
+Theorem C16_sites_in_classes_bounded : forall s,
+  (length s <= 4 /\ Forall (fun c => In c alpha14) s) \/ (length s <= 5 /\ Forall (fun c => In c alpha8) s) ->
+  site_in_class s = true.
+Proof. exact sites_in_classes_bounded. Qed.
+Print Assumptions C16_sites_in_classes_bounded.
+
+(* ---- non-vacuity ---- *)
+(* //a[@k='v' and position()=1]|b  parses; the guard of C16_total_partial holds *)
+Example C16_example_ok :
+  let s := [47; 47; 97; 91; 64; 107; 61; 39; 118; 39; 32; 97; 110; 100; 32; 112; 111; 115; 105; 116; 105; 111; 110; 40; 41; 61; 49; 93; 124; 98]%N in
+  crash_free s = true /\ unclassified s = true /\
+  parse s = OOk [LocationPath true
+                   [LocationStep AxDescendantOrSelf (NodeTypeTest KTagNode) [];
+                    LocationStep AxChild (NameMatchTest None [97%N])
+                      [BooleanOperator OpAnd
+                         (BooleanOperator OpEq (AttributeValue None [107%N]) (AnyValue (VStr [118%N])))
+                         (BooleanOperator OpEq (Function [112;111;115;105;116;105;111;110]%N []) (AnyValue (VNum 1%N)))]];
+                 LocationPath false [LocationStep AxChild (NameMatchTest None [98%N]) []]].
+Proof. vm_compute. repeat split; reflexivity. Qed.
+
+(* a[  is rejected at position 1 with a message that renders *)
+Example C16_example_rejected :
+  exists m text, parse [97; 91]%N = ORej 1 m false /\ xpe_str (Some [97; 91]%N) (Some 1) (Some m) = Some text
+                 /\ crash_free [97; 91]%N = true.
+Proof. eexists. eexists. vm_compute. repeat split; reflexivity. Qed.
+
+(* a history that fills the parse cache with a, evicts nothing, then asks again *)
+Example C16_example_cache :
+  snd (parse_cached (run [EvParse [97%N]; EvParse [97; 47]%N; EvTokenize [98%N]; EvClearTokenize; EvParse [97%N]]) [97%N])
+  = parse [97%N]
+  /\ length (parse_cache (run [EvParse [97%N]; EvParse [97; 47]%N; EvParse [97%N]])) = 1.
+Proof. vm_compute. split; reflexivity. Qed.
